@@ -781,14 +781,16 @@ def kind_of(v):
     return "map"
 
 
-def exhaustive_single(base, tag):
-    """every single-point mutation of base"""
-    P = pool()
+def exhaustive_single(base, tag, rng=None, nset=None):
+    """every single-point mutation of base (with rng/nset: only nset seeded
+    pool values per node for the retype edit, everything else in full)"""
+    P0 = pool()
     out = [(tag + ":base", base)]
     for path, node in nodes_of(base):
         pt = path_text(path)
         if path:
             out.append(("%s:delete@%s" % (tag, pt), delete_at(base, path)))
+        P = P0 if rng is None or nset is None else rng.sample(P0, nset)
         for v in P:
             if kind_of(v) == kind_of(node) and v == node:
                 continue
@@ -1269,8 +1271,8 @@ def build_cases(ck, impl, rng, tier):
         cases += exhaustive_single(small_full_doc(), "exh-full")
         for name, d in samples:
             if sum(1 for _ in nodes_of(d)) <= 60:
-                cases += exhaustive_single(d, "exh-sample")
-    n_mut = 350 if quick else 9000
+                cases += exhaustive_single(d, "exh-sample", rng, 5)
+    n_mut = 350 if quick else 6000
     bases = [d for _, d in samples] + valids
     for i in range(n_mut):
         b = rng.choice(bases) if rng.random() < 0.8 else small_full_doc()
@@ -1291,8 +1293,8 @@ def evaluate(ck, impl, cases, tag="c13"):
     records, the literals (None outside H_word) and the failing indices"""
     recs, lits = [], []
     t_impl = time.time()
-    for tg, doc in cases:
-        obs, detail, bits = observe(impl, doc)
+    observed = observe_all(impl, [d for _, d in cases])
+    for (tg, doc), (obs, detail, bits) in zip(cases, observed):
         cmp = comparable(doc)
         hw = h_word(doc)
         recs.append({"tag": tg, "doc": doc, "obs": obs, "detail": detail, "bits": bits, "cmp": cmp, "hw": hw})
@@ -1315,6 +1317,41 @@ def evaluate(ck, impl, cases, tag="c13"):
     return recs, lits, bad, errs
 
 
+_W_IMPL = None
+
+
+def _worker_init():
+    global _W_IMPL
+    _W_IMPL = Impl()
+
+
+def _worker_obs(doc):
+    n0 = _W_IMPL.stage_runs
+    try:
+        obs, detail, bits = observe(_W_IMPL, doc)
+    except Exception as e:       # never let a worker die: the parent re-raises
+        return None, repr(e), None, 0
+    return obs, detail, bits, _W_IMPL.stage_runs - n0
+
+
+def observe_all(impl, docs):
+    """the implementation's observable for every document; big batches are
+    spread over a few forked worker processes (each imports /repo itself)"""
+    if len(docs) < 3000:
+        return [observe(impl, d) for d in docs]
+    import multiprocessing
+    ctx = multiprocessing.get_context("fork")
+    with ctx.Pool(min(6, max(2, common.NCPU // 3)), initializer=_worker_init) as pool:
+        res = pool.map(_worker_obs, docs, chunksize=64)
+    out = []
+    for obs, detail, bits, st in res:
+        if obs is None:
+            raise RuntimeError("observation failed in a worker: %s" % detail)
+        impl.stage_runs += st
+        out.append((obs, detail, bits))
+    return out
+
+
 def explain(lit):
     return common.coq_eval("c13_detail", HEADER, "case_detail %s" % lit, timeout=300)
 
@@ -1334,11 +1371,13 @@ def judge(ck, recs, lits, bad, errs, limit=4):
     sub = [lits[i] for i in bad]
     ty = "jv * result * (list bool * bool)"
     # failing(case_corr) = model/implementation or interpreter/jsonschema disagree
-    corr_bad, e1 = common.coq_failing("c13_j1", HEADER, ty, "case_corr", sub, shard=250, timeout=1500)
     # failing(case_mon)  = the monitor is false on the implementation's outcome
-    mon_bad, e2 = common.coq_failing("c13_j2", HEADER, ty, "case_mon", sub, shard=250, timeout=1500)
     # failing(case_notk5) = the known-finding signature K5 holds
-    k5, e3 = common.coq_failing("c13_j3", HEADER, ty, "case_notk5", sub, shard=250, timeout=1500)
+    from concurrent.futures import ThreadPoolExecutor
+    with ThreadPoolExecutor(max_workers=3) as ex:
+        futs = [ex.submit(common.coq_failing, "c13_j%d" % k, HEADER, ty, fn, sub, 250, 1500)
+                for k, fn in enumerate(("case_corr", "case_mon", "case_notk5"), 1)]
+        (corr_bad, e1), (mon_bad, e2), (k5, e3) = [f.result() for f in futs]
     for e in e1 + e2 + e3:
         ck.mismatch("coqc failed while classifying failing cases", None, e[1])
     corr_bad, mon_bad, k5 = set(corr_bad), set(mon_bad), set(k5)
@@ -1426,7 +1465,7 @@ def run(ck):
             ck.mismatch("unreadable corpus file %s" % t, j)
     ck.cov["rule"] = ("documents = corpus + repo samples + generated valid specifications (full range of "
                       "schema-admitted values per key) + every single-point mutation of a small document "
-                      "(thorough: of a full-featured one and of the small samples too) + seeded structural and "
+                      "(thorough: of a full-featured one in full, and of every small repo sample with 5 seeded pool values per node for the retype edit) + seeded structural and "
                       "semantic mutations + exotic shapes; a case is distinct by its YAML text; all cases are "
                       "non-trivial (each runs the real front end and the model); interp = random values against "
                       "every sub-schema (Gallina interpreter vs jsonschema)")
